@@ -345,6 +345,13 @@ class Waiting(State):
         waiting_future, self._waiting_future = self._waiting_future, futures.Future()
         waiting_future.set_exception(reason)
 
+    def exit(self) -> None:
+        super().exit()
+        if not self._waiting_future.done():
+            # The state is left while execute() may still be blocked on the wait (e.g. a scheduled callback failed the
+            # process): wake it up so that the step, and with it ``step_until_terminated``, returns
+            self._waiting_future.set_result(NULL)
+
     async def execute(self) -> State:  # type: ignore
         # An interruption is dealt with by the caller (by raising), see ``interrupt``
         result = await self._waiting_future
